@@ -76,7 +76,7 @@ func c07Loaded(meta *Meta) {
 						if (verr == nil) != want {
 							meta.GoViolation = append(meta.GoViolation, map[string]any{"signature": "loaded-document:verdict", "cases": []any{desc},
 								"go_observation": fmt.Sprintf("target %s, callback accepts=%v: got error %v", target, accept, verr),
-								"judgement": "a document that went through the loader: the request is judged by its declared security requirement and parameter"})
+								"judgement":      "a document that went through the loader: the request is judged by its declared security requirement and parameter"})
 						} else if noAuth && asked > 0 {
 							meta.GoViolation = append(meta.GoViolation, map[string]any{"signature": "loaded-document:callback-asked-although-the-operation-needs-no-authentication", "cases": []any{desc},
 								"go_observation": "the authentication callback was asked about the document-level scheme", "judgement": "an operation-level empty security list / empty requirement replaces the document's requirements"})
